@@ -132,6 +132,14 @@ def pair_cases(tier, seed):
             cn = cellnames[k % len(cellnames)]
             img = IMAGES[(k // 4) % len(IMAGES)] if cn != "none" else (0, 0, 0)
             out.append({"els": [a, b], "delta": d, "cell": cn, "img": list(img), "k": k})
+        # the distance exactly equal to the cutoff ("below" is strict): no cell, the pair along one coordinate axis, only for
+        # pairs whose cutoff is the same floating-point number in whatever order the three terms are added
+        ra, rb = radii[a], radii[b]
+        nm = 0.45 if (a in NON_METALS_SPEC or b in NON_METALS_SPEC) else 0.0
+        sums = {(ra + rb) + nm, ra + (rb + nm), (ra + nm) + rb, (rb + ra) + nm, rb + (ra + nm), (nm + ra) + rb, (nm + rb) + ra}
+        if len(sums) == 1:
+            k += 1
+            out.append({"els": [a, b], "tie": True, "axis": k % 3, "k": k})
     return out
 
 
@@ -139,6 +147,17 @@ def pair_oracle(case, stats):
     radii, nonmetals = tables()
     a, b = case["els"]
     c = cutoff(a, b, radii)
+    if case.get("tie"):
+        p2 = [0.0, 0.0, 0.0]
+        p2[case["axis"]] = c if case["k"] % 2 else -c            # |p2 - p1| is exactly the cutoff
+        els, pos = ([a, b], [[0.0, 0.0, 0.0], p2]) if case["k"] % 4 < 2 else ([b, a], [p2, [0.0, 0.0, 0.0]])
+        rows = detect(els, pos, None)
+        if rows:
+            raise Violation("bond-set", "%s-%s at a distance of exactly the cutoff %r (no cell, along axis %d): reported bonded %r; "
+                            "bonded means *below* the cutoff" % (a, b, c, case["axis"], rows))
+        stats.count("exactly-at-cutoff")
+        stats.mark_nontrivial(case)
+        return
     cell = CELLS[case["cell"]]
     dist = c * (1 + case["delta"])
     u = _dir(case["k"])
